@@ -291,7 +291,9 @@ def job_prog(job):
             r.nontrivial += 1
             tagb = "prog|inst=%d|format=%s|info=%s" % (ii, [f.id for f, b in zip(fopt, fs) if b], [f.id for f, b in zip(iopt, isub) if b])
             full = (FORMAT.GL in ff) or (FORMAT.GP in ff)
-            need_afp = prog.require_AFP()
+            # independent of program.require_AFP(): posterior allele statistics are needed whenever any of them is reported
+            need_afp = any(b for n, b in zip([f.id for f in fopt], fs) if n in ("ACP", "AFP", "AOP")) or any(
+                b for n, b in zip([f.id for f in iopt], isub) if n in ("ACP", "AFP", "AOP", "AOPSUM"))
             for s, P in samples.items():
                 gens, post, llks, (afp, aop) = refs[s]
                 order = sorted(gens, key=lambda g: tuple(reversed(g)))
@@ -310,7 +312,7 @@ def job_prog(job):
                     sup = sum(v for g, v in post.items() if set(g) == set(gt))
                     if abs(data.sampledata[FORMAT.SPM][s] - sup) > tol:
                         bad.append("SPM %.9g != %.9g" % (data.sampledata[FORMAT.SPM][s], sup))
-                if need_afp or not full:
+                if need_afp:
                     for fld, want in ((FORMAT.AFP, afp), (FORMAT.AOP, aop), (FORMAT.ACP, [x * P for x in afp])):
                         got = data.sampledata[fld].get(s)
                         if got is None or len(got) != len(want) or np.abs(np.array(got) - want).max() > tol * P:
